@@ -14,7 +14,7 @@ import (
 // Counters, caches and "is it stuck?" heuristics only show themselves at this length.
 
 var longRunKinds = []string{"mvn-full", "mvp-full", "mvn-ffff-less-1", "mvn-8bit-index", "mvp-same-bank", "bra-self", "jmp-self", "jml-self", "brl-self", "bne-self",
-	"inx-loop", "dec-a-loop", "dey-8bit-loop", "nop-slide-wraps-bank", "push-loop-stack-wraps"}
+	"inx-loop", "dec-a-loop", "dey-8bit-loop", "nop-slide-wraps-bank", "push-loop-stack-wraps", "jsr-self-recursion", "jsl-self-recursion", "jsr-rts-deep-then-unwind"}
 
 // longRunCase builds one long run: start state, image, and the number of steps to drive.
 func longRunCase(g *vf.Rng, kind string) (ref.State, *mem.Image, int) {
@@ -105,6 +105,27 @@ func longRunCase(g *vf.Rng, kind string) (ref.State, *mem.Image, int) {
 		}
 		img.Ov[k|uint32(s.PC-1)] = 0xDB
 		steps = 65536 + 4
+	case "jsr-self-recursion": // JSR * : a routine that calls itself for ever, two bytes of stack a call
+		s.E = false
+		s.S = uint16(0x0400 + g.Intn(0xF000))
+		put(0x20, byte(s.PC), byte(s.PC>>8))
+		steps = 40000 + g.Intn(2000)
+	case "jsl-self-recursion": // JSL *
+		s.E = false
+		s.S = uint16(0x0400 + g.Intn(0xF000))
+		put(0x22, byte(s.PC), byte(s.PC>>8), s.K)
+		steps = 30000 + g.Intn(2000)
+	case "jsr-rts-deep-then-unwind":
+		// f: DEX ; BEQ done ; JSR f ; done: RTS   with X = 1000: a thousand nested calls, then a thousand returns
+		s.E = false
+		s.P &^= 0x10
+		s.X = uint16(300 + g.Intn(1500))
+		s.S = uint16(0x2000 + g.Intn(0xD000))
+		// entry: JSR f ; STP
+		f := s.PC + 4
+		put(0x20, byte(f), byte(f>>8), 0xDB)
+		put(0xCA, 0xF0, 0x03, 0x20, byte(f), byte(f>>8), 0x60)
+		steps = int(s.X)*5 + 16
 	case "push-loop-stack-wraps": // PHA ; BRA -3 : the stack pointer goes all the way round bank 0
 		s.E = false
 		put(0x48, 0x80, 0xFD)
@@ -143,7 +164,7 @@ func (w *diffWorker) longRun(kind string, s0 ref.State, base *mem.Image, steps i
 			w.skipMem = false
 			w.compareSides(op, pre, rp, ra, mp, ma, fmt.Sprintf("long run %s end", kind), detail(step, pre))
 			w.cells["long:"+kind+":reached-stp"]++
-			if step < 65535 {
+			if step < 65535 && kind != "jsr-rts-deep-then-unwind" {
 				w.r.Fail("long-run-stopped-early", fmt.Sprintf("long run %s: both interpreters report stopped after only %d steps | start={%v}", kind, step+1, s0), detail(step, pre)())
 			}
 			break
